@@ -605,13 +605,14 @@ func main() {
 		runOne(defectFSilent())
 	}
 
-	n := e.N(80, 1500)
+	n := e.N(60, 1500)
 	opts := rmkit.GenOpts{SchemaChange: 5}
 	if *profile == "c43" {
 		opts.SchemaChange = 2
 	}
+	root := hx.NewRng(e.Seed*0xD6E8FEB86659FD93 ^ e.Rng.U64()) // hx seeds s and s+1 share a stream shifted by one draw
 	for i := 0; i < n; i++ {
-		rng := e.Rng.Fork()
+		rng := root.Fork()
 		sc := rmkit.GenScenario(rng, i, opts)
 		if *profile == "c29" && rng.Chance(2, 3) {
 			sc.Resolve = "none"
